@@ -52,12 +52,18 @@ Inductive source :=
 | SScript (evs : list sevent)        (* streams only: scripted source; after the script: End forever.
                                         A Next whose context is expired returns the context error
                                         and consumes nothing. *)
-| SScriptNC (evs : list sevent).     (* streams only: scripted source that never looks at the
+| SScriptNC (evs : list sevent)      (* streams only: scripted source that never looks at the
                                         context: a Next with an expired context behaves exactly
                                         like a live one (returns the next scripted event and
                                         consumes it).  Slice-backed streams that do not check
                                         ctx, channel-backed streams whose select picks the ready
                                         item. *)
+| SError (e : Z).                    (* streams only: stream.Error(err), "a Stream that
+                                        immediately produces err from Next": EVERY Next returns
+                                        the error e - first call or later, live or expired
+                                        context (errorStream.Next does not look at it), before
+                                        or after Close -, nothing else ever; Close does
+                                        nothing. *)
 
 (* pipelines yielding Z (pz) and pipelines yielding lists of Z (pl) *)
 Inductive pz :=
